@@ -8,6 +8,8 @@
  R13b range clamps: weights ``clip(round(x / s), max = 2**(p-1) - 1)`` with the 0-bit case
       short-circuited to zeros; activations ``floor(f * clamp(x, lo, hi))`` with
       f = (2**p - 1) / (range + eps).
+ R13f range provenance of the symmetric weight quantizer: ch_max = per-output-channel max |x|,
+      ch_min = -ch_max (the lower end of the signed range is not clipped).
  R13c monotone: each STE forward is non-decreasing in its data input (numeric domain).
  R13d rounding-mode agreement: activation quantizers and the integer back ends'
       re-quantisation truncate (floor); weights and bias round.
@@ -428,6 +430,43 @@ def r13e(ctx):
            'scale == range / (2**p - 1), the factor the quantizer uses' if ok else
            f'reported scale {short(rep[0])} differs from the factor used '
            f'{short(poly.substitute(used, ren))}', where(g))
+    # ... including the in-place repairs of the range (zero range replaced by 1): the two sites
+    # must patch the same elements, otherwise the reported scale of a channel the quantizer
+    # still treats normally is a different number
+    def canon_cmp(t):
+        # x.eq(c) / torch.eq(x, c) / x == c are one comparison
+        if isinstance(t, tuple):
+            t = tuple(canon_cmp(x) for x in t)
+            ops = {'eq': '==', 'ne': '!=', 'gt': '>', 'ge': '>=', 'lt': '<', 'le': '<='}
+            if t and t[0] == 'call':
+                mc = method_call(t)
+                c = callee(t)
+                if mc and mc[1] in ops and len(mc[2]) == 1:
+                    return ('cmp', ops[mc[1]], mc[0], mc[2][0])
+                if c and c.startswith('torch.') and c[6:] in ops and len(t[2]) == 2:
+                    return ('cmp', ops[c[6:]], t[2][0], t[2][1])
+        return t
+
+    def fixups(fn, rename):
+        out = []
+        for p in returning(paths(repo, fn)):
+            cur = []
+            for e in p.calls():
+                mc = method_call(e.data[0])
+                if mc and mc[1].endswith('_') and not mc[1].startswith('_') and \
+                        mentions(mc[0], lambda y: y[0] == 'bin' and y[1] == '-'):
+                    cur.append(show(canon_cmp(poly.substitute(e.data[0], rename))))
+            if cur and cur not in out:
+                out.append(cur)
+        return out
+    fq, fs = fixups(q, ren), fixups(g, {})
+    same = fq == fs and bool(fq)
+    ctx.ob('R13e', 'MinMaxWeight.scale repairs the range like _min_max_quantize', same,
+           f'same in-place repair at both sites: {fq[0][0][:70] if fq else ""}' if same else
+           f'the quantizer repairs its range with {[x[:90] for x in (fq[0] if fq else [])]} but '
+           f'the reported scale with {[x[:90] for x in (fs[0] if fs else [])]}: for a channel one '
+           f'site patches and the other does not, fake-quantised output != integer output x '
+           f'reported scale', where(g))
     # the arguments forward passes to the STE are the stored range
     fw = mm.methods['forward']
     ok = False
@@ -472,7 +511,110 @@ def r13e(ctx):
                f'bias path is {short(r)}', where(fwd))
 
 
+def _reduction(t: Term):
+    """(kind, operand, dim) of a per-channel extreme: x.max(d)[0] / torch.max(x, d)[0] /
+    x.amax(d) / torch.amax(x, d) (kind 'max' or 'min'); None otherwise."""
+    if t[0] == 'sub' and t[2] == ('const', 0):
+        t = t[1]
+        names = ('max', 'min')
+    else:
+        names = ('amax', 'amin')
+    if t[0] != 'call':
+        return None
+    mc = method_call(t)
+    c = callee(t)
+    if mc is not None and mc[1] in names:
+        x, rest, kws = mc[0], mc[2], dict(mc[3])
+        kind = mc[1][-3:]
+    elif c in tuple('torch.' + n for n in names) and t[2]:
+        x, rest, kws = t[2][0], t[2][1:], dict(t[3])
+        kind = c[-3:]
+    else:
+        return None
+    dim = kws.get('dim', rest[0] if rest else None)
+    return kind, x, dim
+
+
+def _chain(x: Term):
+    """names of the unary tensor methods / torch functions applied on the way from the input
+    to x, innermost first, with their argument tuples"""
+    out = []
+    while x[0] == 'call':
+        mc = method_call(x)
+        c = callee(x)
+        if mc is not None:
+            out.append((mc[1], mc[2], dict(mc[3])))
+            x = mc[0]
+        elif c and c.startswith('torch.') and x[2]:
+            out.append((c[6:], x[2][1:], dict(x[3])))
+            x = x[2][0]
+        else:
+            break
+    return x, list(reversed(out))
+
+
+def r13f(ctx):
+    """Range provenance of the symmetric weight quantizer.  The lower end of the signed range
+    is not clipped: round(x / scale) >= -2**(p-1) holds because |x| <= ch_max on the channel,
+    i.e. because ch_max is the per-output-channel maximum of |x| (abs before the reduction,
+    reduction over every axis but the channel axis 0) and ch_min = -ch_max, handed to the STE
+    in that order."""
+    repo = ctx.repo
+    mm = repo.cls('MinMaxWeight')
+    init = mm.methods['__init__']
+    sym_fn = None
+    for p in returning(paths(repo, init)):
+        for e in p.events:
+            if e.kind == 'setattr' and e.data[0] == SELF and e.data[1] == 'compute_min_max' and \
+                    any(a == ('param', 'symmetric') and v for a, v in p.assumptions) and \
+                    e.data[2][0] == 'attr' and e.data[2][1] == SELF:
+                sym_fn = repo.find_method(mm, e.data[2][2])
+    if sym_fn is None:
+        raise AnalysisError('R13f: symmetric range function of MinMaxWeight not found')
+    inp = ('param', sym_fn.params[1])
+    for p in returning(paths(repo, sym_fn)):
+        r = p.retval
+        if r is None or r[0] != 'tuple' or len(r[1]) != 2:
+            raise AnalysisError(f'R13f: {sym_fn.name} does not return (min, max)')
+        lo, hi = r[1]
+        red = _reduction(hi)
+        problems = []
+        if red is None or red[0] != 'max':
+            problems.append(f'the upper end {short(hi, 60)} is not a maximum')
+        else:
+            base, chain = _chain(red[1])
+            names = [c[0] for c in chain]
+            if base != inp:
+                problems.append(f'the maximum is not taken over the input ({short(base, 40)})')
+            if 'abs' not in names:
+                problems.append('the maximum is taken over x, not over |x|: a channel whose '
+                                'most negative weight exceeds its largest positive one maps below '
+                                '-2**(p-1) (the lower end is not clipped)')
+            # channel axis kept: a 2-D view (size(0), -1) / flatten(1) reduced over dim 1
+            two_d = False
+            for nm, args, kws in chain:
+                if nm in ('view', 'reshape') and len(args) == 2 and args[1] == ('const', -1) and \
+                        mentions(args[0], lambda y: y == inp) and \
+                        mentions(args[0], lambda y: y == ('const', 0)):
+                    two_d = True
+                if nm == 'flatten' and (args[:1] == (('const', 1),) or
+                                        kws.get('start_dim') == ('const', 1)):
+                    two_d = True
+            if not (two_d and red[2] in (('const', 1), ('const', -1))):
+                problems.append(f'the reduction (dim {short(red[2], 20) if red[2] else None}) is '
+                                f'not over every axis but the output-channel axis 0: the range of '
+                                f'a channel is taken from other channels')
+        neg = lo == ('un', '-', hi) or poly.equal(lo, ('bin', '*', ('const', -1), hi)) or \
+            (callee(lo) in ('torch.neg', 'torch.negative') and lo[2][0] == hi)
+        if not neg:
+            problems.append(f'the lower end {short(lo, 60)} is not minus the upper end')
+        ctx.ob('R13f', f'MinMaxWeight.{sym_fn.name} range', not problems,
+               'ch_max = per-channel max |x|, ch_min = -ch_max: |x / scale| <= (2**p - 1) / 2'
+               if not problems else '; '.join(problems), where(sym_fn))
+
+
 def run(ctx):
+    r13f(ctx)
     r13a(ctx)
     r13b(ctx)
     r13c(ctx)
